@@ -139,9 +139,21 @@ def _storage_models_core(eng):
 
     def set_memo(e, s, a, k, n):
         s1 = s.clone()
-        if s1.ghost.get("top") is not None:
-            s1.ghost["top"] = list(a)
-        return [(s1, NONE)]
+        if s1.ghost.get("top") is None:
+            return [(s1, NONE)]
+        # contract of set_shape_memo (unit storage): (a) the frame now is the four argument dicts, or (b) its own dicts were restored in place
+        s2 = s.clone()
+        s1.ghost["top"] = list(a)
+        s1.path.append("set_shape_memo:frame-replaced")
+        ok = len(a) == 4 and all(isinstance(x, Ref) for x in a)
+        if not ok:
+            return [(s1, NONE)]
+        for r, a_ in zip(s2.ghost["top"], a):
+            if r.h != a_.h:
+                src = s2.get(a_)
+                s2.put(r, s2.get(r).with_(src.m, src.d))
+        s2.path.append("set_shape_memo:restored-in-place")
+        return [(s1, NONE), (s2, NONE)]
 
     eng.globals.update({
         "set_treeflatten_memo": Fn("set_treeflatten_memo", model=set_flat), "clear_treeflatten_memo": Fn("clear_treeflatten_memo", model=clear_flat),
